@@ -128,14 +128,21 @@ impl Palette {
     pub fn mutate(&self, r: &mut Rng, t: &MTree) -> MTree {
         let mut t = t.clone();
         for _ in 0..r.range(1, 3) {
-            let p = self.path(r);
-            let v = match r.below(8) {
+            // mostly edit a path that exists (so that sides touch the same entries)
+            let mut existing = BTreeSet::new();
+            all_paths(&t, &mut vec![], &mut existing);
+            let p = if !existing.is_empty() && r.chance(2, 3) { existing.iter().nth(r.below(existing.len())).unwrap().clone() } else { self.path(r) };
+            let v = match r.below(10) {
                 0 | 1 => None,
                 2 => { let s = self.tree(r, 1); if s.is_empty() { None } else { Some(V::T(s)) } }
                 3 => match get(&t, &p) { Some(V::F(id, x)) => Some(V::F(id, !x)), _ => Some(self.leaf(r)) },
+                // change one slot of the file's content (these are the edits a content merge can combine)
+                4..=7 => match get(&t, &p) {
+                    Some(V::F(id, x)) => { let (a, b) = (id / 3, id % 3); Some(if r.chance(1, 2) { V::F(3 * ((a + 1 + r.below(2) as u64) % 3) + b, x) } else { V::F(3 * a + (b + 1 + r.below(2) as u64) % 3, x) }) }
+                    _ => Some(self.leaf(r)),
+                },
                 _ => Some(self.leaf(r)),
             };
-            // setting below a file replaces the file by a directory: only sometimes
             set(&mut t, &p, v);
         }
         t
